@@ -1,5 +1,5 @@
 """C13 — row/column locations are correct and independent of the locator used.
-(1) explicit-state search of the LinearLocator cursor machine (state read through hook H4) on every text over {a, é, LF, CR} (+BOM)
+(1) explicit-state search of the LinearLocator cursor machine (state read through hook H4) on every text over {a, é, LF, CR, U+FEFF}
     up to length n: every locate(o >= cursor) / locate_only transition against a reference line/character counter, and the
     abstraction 'state is a function of the cursor' asserted;
 (2) every tree of the G_ref corpus under layouts incl. a line-spread layout (tree order != source order across lines), default and
@@ -61,10 +61,10 @@ def run(tier, seed):
     total.states = mstates + len(allh)
     total.nontrivial = total.validated + mstates
     total.extra['locator_machine_states'] = mstates
-    rule = ('(1) LinearLocator cursor machine: for every text over {a, é, LF, CR} of length<=%d (and BOM + length<=%d), BFS over the states reachable by locate(o) for every '
+    rule = ('(1) LinearLocator cursor machine: for every text over {a, é, LF, CR, U+FEFF} of length<=%d, BFS over the states reachable by locate(o) for every '
             'character-boundary o >= cursor (states read through LinearLocator::verif_state, de-duplicated; histories replayed on fresh locators), locate_only from every state; '
             '(2) every G_ref sentence with <=%d non-default alternatives under layouts %s, default and all-nodes builds (module mode; the expression sub-grammar in expression mode and, one level lower, interactive mode): folds by both locators vs the reference rendering; '
-            'every sequence of <=2/3 literals of a 14-literal f-string set (one line / spread over lines / as call arguments); rejected sentences: both locators on the error offset; states = machine states + distinct texts' % (MACHINE_N[tier], MACHINE_N[tier] - 1, d, LAYOUTS))
+            'every sequence of <=2/3 literals of the 19-literal f-string set (one line / spread over lines / as call arguments); rejected sentences: both locators on the error offset; states = machine states + distinct texts' % (MACHINE_N[tier], d, LAYOUTS))
     return C.finish(PROP, tier, seed, t0, total, rule,
                     ['reference line/character counter in the harness (CR, LF, CRLF one break; BOM not counted; characters, not bytes)',
                      'the byte ranges themselves are C02\'s subject; here they are taken as given'])
